@@ -1,5 +1,6 @@
 import TF.Proofs.Codec
 import TF.Proofs.GenBridgeCodec
+import TF.Proofs.GenBridgeCodecGeneric
 /-!
 # C03 — BFieldCodec: round trip, unique encoding, static length, documented layout
 
@@ -275,5 +276,64 @@ theorem gen_leaf_layout_roundtrip_transfer (n : Nat) (r : List Nat) :
   · rw [(u128_encode_limbs n).1]; rfl
 example : Loops.codec_u64_decode (Loops.codec_u64_encode 18446744073709551615) = .ok 18446744073709551615 ∧
     (18446744073709551615 : Nat) < 2^64 := by decide +kernel
+
+end TF.C03
+
+/-! ## regenerated-from-source bridge: the generic list combinators (BT8)
+
+`bfield_codec_decode_list_with_statically_sized_items`, `…_with_dynamically_sized_items`, `bfield_codec_decode_list` and
+`bfield_codec_encode_list` are **regenerated from the source on every run** (`TF/Gen/CodecGeneric.lean`,
+`tools/rs2lean_codec.py`): the trait methods of the type parameter are parameter functions (`T_static_length : Option Nat`,
+`T_decode : List Nat → Res T_Error T`, `T_encode : T → List Nat`, `T_err_into`), a Rust function returning `Result` is a
+function into `Res` (`ok | err | panic`, panic points explicit), the `for` loops with `?` are folds that stop at the first
+`err` / `panic`.  The bridges hold for **every** item decoder / encoder (`Item T_decode toVal dec`: the item decoder on raw
+words is observed as the model's item decoder on canonical values), every count and every sequence of `u64` words
+(`Words r`); error kinds are not compared (`Obs`; the Rust code wraps the item's error).  Proofs:
+`TF/Proofs/GenBridgeCodecGeneric.lean`. -/
+namespace TF.C03
+open TF.Codec TF.Gen TF.GenBridge.Codec TF.GenBridge.CodecG TF.RustStd
+
+/-- regenerated static list decoder = `decodeList dec (some w)`: `checked_mul` overflow, both length comparisons,
+    `chunks_exact(0)` panicking for zero-width items (F10), the chunk loop with its early exit -/
+theorem gen_decode_list_static_eq_model {ε α : Type} (T_decode : List Nat → Res ε α) (into : ε → DynErr) (toVal : α → Val)
+    (dec : List Nat → Outcome Val) (h : Item T_decode toVal dec) (w n : Nat) (r : List Nat) :
+    obsR (List.map toVal) (Loops.codec_decode_list_static (some w) T_decode into n r)
+      = obsM (decodeList dec (some w) n (vals r)) :=
+  gen_decode_list_static T_decode into toVal dec h w n r
+
+/-- the regenerated code shows the known finding F10: a zero-width item type makes the static list decoder panic
+    (`chunks_exact(0)`) on the sequence it should accept, whatever the item decoder is -/
+theorem gen_zero_width_list_panics {ε α : Type} (T_decode : List Nat → Res ε α) (into : ε → DynErr) (n : Nat) :
+    Loops.codec_decode_list_static_ok (some 0) T_decode into n [] = false := by
+  simp [Loops.codec_decode_list_static_ok, Loops.codec_decode_list_static, Res.unwrapO, TF.RustStd.checked_mul, Res.need,
+    Res.noPanic]
+
+/-- regenerated dynamic list decoder = `decodeList dec none`: per-item length prefix, `sequence_index + item_length`
+    (overflow = panic), comparison with the remaining length, item slice, early exits, "nothing left" at the end -/
+theorem gen_decode_list_dynamic_eq_model {ε α : Type} (T_decode : List Nat → Res ε α) (into : ε → DynErr) (toVal : α → Val)
+    (dec : List Nat → Outcome Val) (h : Item T_decode toVal dec) (n : Nat) (r : List Nat) (hw : Words r) :
+    obsR (List.map toVal) (Loops.codec_decode_list_dynamic T_decode into n r) = obsM (decodeList dec none n (vals r)) :=
+  gen_decode_list_dynamic T_decode into toVal dec h n r hw
+
+/-- regenerated `bfield_codec_decode_list` = `decodeList` (dispatch on the item's static length) -/
+theorem gen_decode_list_eq_model {ε α : Type} (sl : Option Nat) (T_decode : List Nat → Res ε α) (into : ε → DynErr)
+    (toVal : α → Val) (dec : List Nat → Outcome Val) (h : Item T_decode toVal dec) (n : Nat) (r : List Nat) (hw : Words r) :
+    obsR (List.map toVal) (Loops.codec_decode_list sl T_decode into n r) = obsM (decodeList dec sl n (vals r)) :=
+  gen_decode_list sl T_decode into toVal dec h n r hw
+
+/-- regenerated `bfield_codec_encode_list` = `encodeItems`: items in order, prefixed iff dynamically sized -/
+theorem gen_encode_list_eq_model {α : Type} (sl : Option Nat) (enc : α → List Nat) (toVal : α → Val) (encM : Val → List Nat)
+    (he : ∀ x, vals (enc x) = encM (toVal x)) (xs : List α) (hl : ∀ x ∈ xs, (enc x).length < TF.BF.Pn) :
+    vals (Loops.codec_encode_list sl enc xs) = encodeItems encM sl.isNone (xs.map toVal) :=
+  gen_encode_list sl enc toVal encM he xs hl
+
+/-- the hypotheses are satisfiable: the identity "decoder" of one-word items is observed as the model's `bfe` decoder -/
+example : Item (fun r => match r with | [x] => (Res.ok x : Res String Nat) | [] => .err "e" | _ => .err "l")
+    (fun x => Val.num (bfe_value x)) (decode .bfe) := by
+  intro r
+  match r with
+  | [] => rfl
+  | [x] => rfl
+  | _ :: _ :: _ => rfl
 
 end TF.C03
